@@ -84,6 +84,9 @@ def replay_history(acts: list) -> None:
             net.remove_reaction(mk(UNIVERSE[a[1] - 1]))
         elif k == "RemoveInstList":
             net.remove_reaction([mk(UNIVERSE[i - 1]) for i in sorted(a[1])])
+        elif k == "RemoveWhere":
+            from naunet.species import Species
+            net.remove_reaction(net.where_species(Species(CLASS_NAMES[a[1]]), a[2]))
         elif k == "SetAllowed":
             net.allowed_species = names(a[1])
         elif k == "SetRequired":
@@ -150,7 +153,7 @@ def random_history(rng: random.Random, steps: int, wild_ok: bool):
     last = None
     for _ in range(steps):
         op = rng.choice(["add", "add", "add", "addvar", "addvar", "rmidx", "rmidxs", "rminst", "rminsts", "allow", "allow0",
-                         "require", "reindex", "find", "find", "rmdup", "addstr", "addderived", "addfile"])
+                         "require", "reindex", "find", "find", "rmdup", "addstr", "addderived", "addfile", "rmwhere"])
         n = len(net.reaction_list)
         if op == "add":
             d = random_reaction(rng, wild_ok, pool)
@@ -189,6 +192,11 @@ def random_history(rng: random.Random, steps: int, wild_ok: bool):
             d = rng.choice(seen)
             s = f"{mk(d):naunet}"
             net.add_reaction((s, "naunet"))
+        elif op == "rmwhere" and n:
+            # what `naunet extend --remove-species` does, for one species (by name or as an object) and any of the three modes
+            from naunet.species import Species
+            nm = rng.choice(pool)
+            net.remove_reaction(net.where_species(nm if rng.random() < 0.5 else Species(nm), rng.choice(["all", "all", "reactant", "product"])))
         elif op == "rmidx" and n:
             net.remove_reaction(rng.randrange(n))
         elif op == "rmidxs" and n:
@@ -472,6 +480,7 @@ def main(ctx: Ctx) -> int:
     cov["spec_behaviours_replayed"] = len(hists)
     for h in hists:
         rec = netrec.start()
+        rec.queries = True
         try:
             replay_history(h)
         except MachineryError:
@@ -486,6 +495,7 @@ def main(ctx: Ctx) -> int:
     n_rand = 60 if ctx.quick else 1200
     for k in range(n_rand):
         rec = netrec.start()
+        rec.queries = True
         try:
             random_history(rng, rng.randint(5, 40), wild_ok=False)
         except Exception as e:   # noqa
@@ -495,6 +505,7 @@ def main(ctx: Ctx) -> int:
             netrec.stop()
         harvest(rec, "random history")
     rec = netrec.start()
+    rec.queries = True
     try:
         dup_lists(rng, 40 if ctx.quick else 800, wild_ok=False)
         dup_lists(rng, 10 if ctx.quick else 100, wild_ok=True)
@@ -588,6 +599,17 @@ def main(ctx: Ctx) -> int:
                       f"{origin[tid]}: trace {tid} rejected at event {rj['at']} ({ev['act']}) clauses {rj['clauses']}; "
                       f"reactions: {[tr['R'][i - 1]['text'] + ' ty=' + str(tr['R'][i - 1]['ty']) for i in ev['post']['rlist']][:8]}",
                       {"origin": origin[tid], "trace": tr, "rejected_at": rj["at"], "clauses": rj["clauses"]})
+    # query clauses outside the listed properties (where_species by role, where_reaction): reported as notes, never as violations
+    qn: dict = {}
+    for tid, lst in sorted(v.get("notes", {}).items()):
+        for l, clause in lst:
+            qn[clause] = qn.get(clause, 0) + 1
+            if qn[clause] <= 2:
+                tr = bytid[tid]
+                ctx.notes.append(f"beyond the listed properties: query clause {clause} fails in trace {tid} ({origin[tid]}) at event {l} "
+                                 f"({tr['ev'][max(0, min(l, len(tr['ev'])) - 1)]['act']})")
+    cov["query_answers_checked"] = sum(len(e["post"].get("ws", [])) + len(e["post"].get("wr", [])) for t in traces for e in t["ev"])
+    cov["query_mismatches_beyond_listed_properties"] = qn
     cov["rejections_of_this_property"] = mine
     cov["rejections_of_sibling_property"] = other
     kinds = {}
